@@ -316,6 +316,7 @@ class TFLiteSupportedOperators:
         self.specific_constraints[Op.Pad].append(TFLiteSupportedOperators.constraint_pad_shape)
         #self.specific_constraints[Op.Pad].append(TFLiteSupportedOperators.constraint_padding_dimensions)
         self.specific_constraints[Op.Pad].append(TFLiteSupportedOperators.constraint_padding_not_mixed)
+        self.specific_constraints[Op.Pad].append(TFLiteSupportedOperators.constraint_padding_no_batch)
         self.specific_constraints[Op.Pad].append(TFLiteSupportedOperators.constraint_pad_type)
 
         # Mean specific checks:
@@ -838,6 +839,13 @@ class TFLiteSupportedOperators:
         inner = sum(pad_tensor[-3:-1, :].flatten()) != 0
         valid = not (outer and inner)
         return valid, f"The pad tensor is: {pad_tensor.tolist()}"
+
+    @staticmethod
+    def constraint_padding_no_batch(op):
+        "The first (batch) dimension cannot be padded"
+        pad_tensor = op.inputs[1].values
+        valid = len(pad_tensor) <= 3 or sum(pad_tensor[0, :]) == 0
+        return valid, f"First dimension padding: {pad_tensor[0, :].tolist()}"
 
     @staticmethod
     def constraint_stridedslice_stride_values(op):
